@@ -8,6 +8,7 @@ use crate::gen::GenCfg;
 use crate::lib_api::*;
 use crate::refcheck::{self, Rule};
 use serde_json::json;
+use std::collections::BTreeSet;
 use tree_sitter_graph::ParseError;
 
 const FAULTS: &[&str] = &[
@@ -532,7 +533,14 @@ fn check_error_debug(e: &ParseError) -> Option<(String, Option<(usize, usize)>)>
         ParseError::Check(c) => {
             let dbg = format!("{:?}", c);
             let re = regex::Regex::new(r"Location \{ row: (\d+), column: (\d+) \}\)$").unwrap();
-            let loc = re.captures(&dbg).map(|m| (m[1].parse().unwrap(), m[2].parse().unwrap()));
+            let mut loc: Option<(usize, usize)> = re.captures(&dbg).map(|m| (m[1].parse().unwrap(), m[2].parse().unwrap()));
+            if loc.is_none() {
+                // the derived Debug rendering is not an interface: fall back on the message text
+                // (`... at (row, column)`, one-based)
+                let msg = format!("{}", e);
+                let re2 = regex::Regex::new(r"at \((\d+), (\d+)\)").unwrap();
+                loc = re2.captures_iter(msg.lines().next().unwrap_or("")).last().and_then(|m| Some((m[1].parse::<usize>().ok()?.checked_sub(1)?, m[2].parse::<usize>().ok()?.checked_sub(1)?)));
+            }
             Some((dbg, loc))
         }
         _ => None,
@@ -668,7 +676,10 @@ pub fn case(tape: &[u32]) -> CaseOutcome {
     }
     if rule == Rule::UnusedCapture {
         // exactly the unused captures, nothing else
-        if !msg.contains(&format!("Unused capture(s) {} at", name)) {
+        // every unused capture is named, and no capture of the file that is used
+        let listed: BTreeSet<String> = regex::Regex::new(r"@[A-Za-z_][A-Za-z0-9_-]*").unwrap().find_iter(msg.lines().next().unwrap_or("")).map(|m| m.as_str().to_string()).collect();
+        let wanted: BTreeSet<String> = name.split_whitespace().map(|s| if s.starts_with('@') { s.to_string() } else { format!("@{}", s) }).collect();
+        if listed != wanted {
             return CaseOutcome::Fail(Failure::new("C06:unused-capture-list", format!("the diagnostic `{}` does not list exactly `{}`", msg, name), d(json!({}))));
         }
     }
